@@ -25,7 +25,7 @@ ASSUMPTIONS = [
     "contents = the ordered list of registered profile names (each custom name has one fixed definition in the generator's pool); order matters because later profiles' macros override earlier ones",
     "adding a name that is already registered is observed (replace or duplicate), then the invariants are checked on what results",
 ]
-PROBES = ["recurrence_hit", "builtins_only_state", "macro_override_active", "rejected_removal", "default_profiles_restricted", "removed_all_and_readded", "interleaved_removal", "emptied_by_single_removals", "compared_with_direct_build"]
+PROBES = ["recurrence_hit", "builtins_only_state", "macro_override_active", "rejected_removal", "default_profiles_restricted", "removed_all_and_readded", "interleaved_removal", "emptied_by_single_removals", "compared_with_direct_build", "refused_addition", "default_profile_removed"]
 
 BATTERY = [
     ("width", "1px"), ("width", "1em"), ("width", "1.5px"), ("width", "bar"), ("width", "5"),
@@ -86,6 +86,7 @@ class World:
         self.reg = P.Profiles(log=cssutils.log)
         self.builtins = list(self.reg.profiles)
         self.seen = {}
+        self.shared = {}
         self.variant = {}  # custom name -> "" (pool definition) | "#nm" (same properties, registered without its macros)
         self.refcache = {}
         self.fresh = self.observe(P.Profiles(log=cssutils.log))
@@ -152,7 +153,12 @@ class World:
             props, macros = CUSTOM[op["name"]]
             if op.get("nomacros"):
                 macros = None
-            kk, v = lib.call(reg.addProfile, op["name"], dict(props), dict(macros) if macros else None)
+            if op.get("shared"):
+                # the caller keeps one dictionary and passes it every time
+                props = self.shared.setdefault(op["name"], dict(props))
+                kk, v = lib.call(reg.addProfile, op["name"], props, dict(macros) if macros else None)
+            else:
+                kk, v = lib.call(reg.addProfile, op["name"], dict(props), dict(macros) if macros else None)
             out = "ok" if kk == "ok" else "exc:" + lib.ename(v)
             if kk == "ok":
                 self.variant[op["name"]] = "#nm" if op.get("nomacros") and CUSTOM[op["name"]][1] else ""
@@ -216,6 +222,44 @@ class World:
             out = "ok" if k2 == "ok" else "exc"
             if out == "exc":
                 raise Viol("removal_accepted", "remove_each:readd-raises", f"re-adding the built-ins raised {v2!r}")
+        elif k == "add_bad":
+            # a definition naming an undefined macro (and shadowing a general one): refused, nothing changes
+            before = self.observe(reg)
+            kk, v = lib.call(reg.addProfile, "PBAD", {"-x-z": "{nope}"}, {"length": "foo"}) if op["single"] else lib.call(reg.addProfiles, [("PBAD", {"-x-z": "{nope}"}, {"length": "foo"}), ("PBAD2", {"-x-y": "a"}, None)])
+            self.stats["oracle"] += 1
+            self.stats["fault:ADD_REFUSED"] += 1
+            self.stats["probe:refused_addition"] += 1
+            if kk == "ok":
+                raise Viol("refused_addition_changes_nothing", "add_bad:accepted", "a profile naming the undefined macro {nope} was accepted")
+            if self.observe(reg) != before or "PBAD" in reg.profiles:
+                raise Viol("refused_addition_changes_nothing", "add_bad:changed", f"addProfile with an undefined macro raised {v!r} but changed the registry (profiles {reg.profiles[len(self.builtins):]})")
+            out = "rejected"
+        elif k == "dependency":
+            # B2 uses a macro of B1 (one batch): removing B1 alone either works or is refused without a trace
+            lib.call(reg.addProfiles, [("B1", {"-x-g": "{mylen}"}, {"mylen": "big|small"}), ("B2", {"-x-h": "{mylen}|x"}, None)])
+            before = self.observe(reg)
+            kk, v = lib.call(reg.removeProfile, "B1")
+            self.stats["oracle"] += 1
+            if kk != "ok" and self.observe(reg) != before:
+                raise Viol("refused_removal_changes_nothing", "dependency:changed", f"removeProfile('B1') raised {v!r} (another profile uses its macro) but changed the registry")
+            for n in ("B2", "B1"):
+                if n in reg.profiles:
+                    k2, v2 = lib.call(reg.removeProfile, n)
+                    if k2 != "ok":
+                        raise Viol("removal_accepted", f"dependency:cleanup:{lib.ename(v2)}", f"removeProfile({n!r}) raised {v2!r}; profiles {reg.profiles[len(self.builtins):]}")
+            out = "ok"
+        elif k == "stale_default":
+            name = op["name"]
+            props, macros = CUSTOM[name]
+            if name not in reg.profiles:
+                lib.call(reg.addProfile, name, dict(props), dict(macros) if macros else None)
+                self.variant[name] = ""
+            lib.call(setattr, reg, "defaultProfiles", name)
+            lib.call(reg.removeProfile, name)
+            self.stats["probe:default_profile_removed"] += 1
+            obs = self.check("stale_default")  # total verdicts although the default names a removed profile
+            lib.call(setattr, reg, "defaultProfiles", None)
+            out = "ok"
         elif k == "remove_last":
             if not reg.profiles:
                 return "empty"
@@ -260,7 +304,13 @@ def gen_op(r, w, i):
     if i >= cfg["n_ops"]:
         return None
     names = cfg["names"]
-    k = r.choice(["add", "add", "add", "remove", "remove", "remove", "add_many", "default", "remove_unknown", "remove_all_readd", "remove_each_readd", "remove_builtin", "add_nomacros"])
+    k = r.choice(["add", "add", "add", "remove", "remove", "remove", "add_many", "default", "remove_unknown", "remove_all_readd", "remove_each_readd", "remove_builtin", "add_nomacros", "add_bad", "dependency", "stale_default"])
+    if k == "add_bad":
+        return {"op": k, "single": r.random() < 0.5}
+    if k == "dependency":
+        return {"op": k}
+    if k == "stale_default":
+        return {"op": k, "name": r.choice(names)}
     if k == "remove_each_readd":
         return {"op": k, "then": r.choice([None, None] + [n for n in names if n in SELF_CONTAINED])}
     if k == "remove_builtin":
@@ -273,8 +323,8 @@ def gen_op(r, w, i):
     absent = [p for p in names if p not in present]
     if k == "add":
         if absent and r.random() < 0.92:
-            return {"op": "add", "name": r.choice(absent)}
-        return {"op": "add", "name": r.choice(names)}
+            return {"op": "add", "name": r.choice(absent), "shared": r.random() < 0.4}
+        return {"op": "add", "name": r.choice(names), "shared": r.random() < 0.4}
     if k == "remove":
         if present:
             return {"op": "remove", "name": r.choice(present)}
